@@ -145,6 +145,23 @@ func c16Child(c *mon.Child) {
 				}
 			}
 		}
+		// def.MarshalJSON() called directly: the returned bytes must stay what they are while other definitions are marshalled
+		if j5, err := def.MarshalJSON(); err == nil {
+			before := string(j5)
+			if other, err := lexer.New(lexer.Rules{"Root": {{Name: "Zz", Pattern: "zz+"}, {Name: "Yy", Pattern: "y", Action: lexer.Push("Root")}, {Name: "Xx", Pattern: "x", Action: lexer.Pop()}}}); err == nil {
+				for k := 0; k < 3; k++ {
+					def.MarshalJSON()
+					other.MarshalJSON() // the last call marshals another definition
+				}
+			}
+			if string(j5) != before {
+				c.Violation("", key0, fmt.Sprintf("the bytes returned by def.MarshalJSON() changed while other definitions were marshalled: %s -> %s", trunc(before, 200), trunc(string(j5), 200)), detail)
+			} else if d5, err := c16Roundtrip(j5); err != nil {
+				c.Violation("", key0, "JSON from a direct def.MarshalJSON() call does not build: "+err.Error(), detail)
+			} else {
+				variants = append(variants, variant{"direct-MarshalJSON", d5})
+			}
+		}
 		names := symNames(def)
 		for _, v := range variants {
 			if !reflect.DeepEqual(def.Symbols(), v.def.Symbols()) {
